@@ -4,14 +4,16 @@ from . import direct, runner
 TRUSTED_BASE = [
     'Coq 8.16.1 kernel as run by coqc (full .vo build); vm_compute for finite table obligations and witnesses; no native_compute',
     'axioms: none - Print Assumptions under every property theorem must answer "Closed under the global context" (parsed on every run)',
-    'tools/translate.py (Python-ast, fail-closed) regenerating coq/Gen/*.v from /repo/src/ansi_string on every run',
+    'tools/translate_rt.py regenerating the tables of coq/Gen/*.v on every run from the IMPORTED package (CPython evaluating the module-level definitions of ansi_param.py / ansi_format.py), cross-checked by the independent Python-ast reading tools/translate.py wherever that recognises the source text (harness/tablecheck.py)',
+    'tools/translate_fns.py (Python-ast) regenerating coq/Gen/Fns.v: six small functions / guards translated where their source shape is known (obligations Proofs/GenFns*.v, GenGuards.v), reference form otherwise - then tied by the enumerated function-level correspondence harness/fncorr.py, named in the evidence',
     'extraction: Require Extraction + ExtrOcamlBasic only (bool, option, unit, list, prod, sumbool->bool, sumor->option, andb/orb inlined); nat/positive/N/Z stay inductive; ocamlfind ocamlopt 4.13.1; hand-written ocaml/driver.ml (S-expression I/O only)',
     'correspondence check = differential testing of the extracted model against /repo on generated inputs and histories (sampled, not proved)',
     'specification choices: coq/Spec/Terminal.v (spec_class, parameter-group consumption, values > 255 ignored, empty parameter = 0, primary font 10 = default font)',
     'CPython 3.12 (dict order, sorted, slicing, is), Python re and the delegated str methods are used as oracles, not modelled',
 ]
 COMMON_ASSUMPTIONS = [
-    'the algorithms of ansi_string.py / ansi_parsing.py / ansi_format.py are hand-modelled in coq/Model; only the tables are regenerated from source',
+    'the algorithms of ansi_string.py / ansi_parsing.py / ansi_format.py are hand-modelled in coq/Model; the tables, _slice_val_to_idx, AnsiSetting.valid, seq_starts_with_fn, the rgb component arithmetic, three range guards and the fill division of center are regenerated from the code',
+    'known findings (known_findings.json, status known): K1 ESC in base text (C01, C03), K2 optimiser drops unneeded parsable verbatim settings (C15), K3 topmost=True vs a restart point (C06), K4 every ESC[...m taken for SGR (C02), K5 ESC read as a parameter byte (C02) - the oracles of those properties do not evaluate the value classes named in the scope of each',
 ]
 
 
